@@ -13,6 +13,8 @@ import (
 	"fmt"
 	"net"
 	"net/http"
+	"os"
+	"os/exec"
 	"regexp"
 	"runtime"
 	"sort"
@@ -301,7 +303,11 @@ func verifC40Exec(op string) string {
 		return "skipped"
 	}
 	if f[0] == "hls" {
-		return verifC40HLS(f)
+		a := verifC40Child(op)
+		if strings.HasPrefix(a, "hang") {
+			verifC40Hangs++
+		}
+		return a
 	}
 	seed := uint64(verifutil.AtoI64(f[1]))
 	workers, iters, mix, closeEarly := verifutil.Atoi(f[2]), verifutil.Atoi(f[3]), verifutil.Atoi(f[4]), f[5] == "1"
@@ -392,6 +398,58 @@ func verifC40Watch(finished chan struct{}, ops *atomic.Int64, watchdog time.Dura
 }
 
 // ---- HLS server + muxers on top of the real pathManager ----
+
+// The hls runs execute in a child process (this test binary re-executed with TestVerifC40Child): a panic
+// in a goroutine of the server cannot be recovered, and it must not take the whole search down.  The
+// answer of a crashed child is `crash <innermost mediamtx frames of the panicking goroutine>`.
+func verifC40Child(op string) string {
+	cmd := exec.Command(os.Args[0], "-test.run", "^TestVerifC40Child$", "-test.count=1", "-test.timeout", "200s")
+	cmd.Env = append(os.Environ(), "VERIF_C40_CHILD_OP="+op, "GOTRACEBACK=single")
+	out, _ := cmd.CombinedOutput()
+	txt := string(out)
+	for _, l := range strings.Split(txt, "\n") {
+		if strings.HasPrefix(l, "VERIFC40ANSWER ") {
+			return strings.TrimPrefix(l, "VERIFC40ANSWER ")
+		}
+	}
+	i := strings.Index(txt, "panic: ")
+	if i < 0 {
+		i = strings.Index(txt, "fatal error: ")
+	}
+	if i < 0 {
+		return "crash ?"
+	}
+	var chain []string
+	for _, l := range strings.Split(txt[i:], "\n") {
+		if strings.HasPrefix(l, "\t") || len(chain) == 4 {
+			continue
+		}
+		const pfx = "github.com/bluenviron/mediamtx/internal/"
+		if j := strings.Index(l, pfx); j >= 0 {
+			f := l[j+len(pfx):]
+			if k := strings.LastIndex(f, "("); k >= 0 {
+				f = f[:k]
+			}
+			f = strings.NewReplacer("(*", "", ")", "", "servers/", "", "core.", "").Replace(f)
+			if strings.Contains(f, "verifC40") {
+				continue
+			}
+			chain = append(chain, f)
+		}
+	}
+	if len(chain) == 0 {
+		return "crash ?"
+	}
+	return "crash " + strings.Join(chain, "<")
+}
+
+func TestVerifC40Child(t *testing.T) {
+	op := os.Getenv("VERIF_C40_CHILD_OP")
+	if op == "" {
+		t.Skip("child of TestVerifC40 only")
+	}
+	fmt.Println("VERIFC40ANSWER " + verifC40HLS(strings.Fields(op)))
+}
 
 func verifC40FreePort() int {
 	ln, err := net.Listen("tcp", "127.0.0.1:0")
@@ -542,7 +600,7 @@ func verifC40Gen(r *verifutil.Rand, i int, thorough bool) []string {
 		if thorough {
 			it = 60 + r.Intn(200)
 		}
-		return []string{fmt.Sprintf("hls %d %d %d %d %d", r.U64()>>1, 1-always, 2+r.Intn(4), it, 4000)}
+		return []string{fmt.Sprintf("hls %d %d %d %d %d", r.U64()>>1, 1-always, 2+r.Intn(4), it, 3000)}
 	}
 	workers := 2 + r.Intn(7)
 	iters := 40 + r.Intn(160)
